@@ -2382,15 +2382,14 @@ func (self *LockDB) UnLock(serverProtocol ServerProtocol, command *protocol.Lock
 			_ = serverProtocol.FreeLockCommand(command)
 			return nil
 		}
-	} else {
-		if currentLock.ackCount != 0xff {
-			lockManager.state.UnlockErrorCount++
-			lockManager.glock.Unlock()
+	}
+	if currentLock.ackCount != 0xff {
+		lockManager.state.UnlockErrorCount++
+		lockManager.glock.Unlock()
 
-			_ = serverProtocol.ProcessLockResultCommand(command, protocol.RESULT_LOCK_ACK_WAITING, uint16(lockManager.locked), currentLock.locked, lockManager.GetLockData())
-			_ = serverProtocol.FreeLockCommand(command)
-			return nil
-		}
+		_ = serverProtocol.ProcessLockResultCommand(command, protocol.RESULT_LOCK_ACK_WAITING, uint16(lockManager.locked), currentLock.locked, lockManager.GetLockData())
+		_ = serverProtocol.FreeLockCommand(command)
+		return nil
 	}
 
 	if currentLock.locked > 1 {
